@@ -29,6 +29,9 @@ func (ck *Buildlink3Checker) Check() {
 
 	mklines.Check()
 
+	// Save the fixes even if the rest of the file is malformed.
+	defer mklines.SaveAutofixChanges()
+
 	llex := NewMkLinesLexer(mklines)
 
 	for llex.SkipIf((*MkLine).IsComment) {
@@ -70,8 +73,6 @@ func (ck *Buildlink3Checker) Check() {
 	if pkg != nil {
 		pkg.checkLinesBuildlink3Inclusion(mklines)
 	}
-
-	mklines.SaveAutofixChanges()
 }
 
 func (ck *Buildlink3Checker) checkFirstParagraph(mlex *MkLinesLexer) bool {
